@@ -238,7 +238,8 @@ struct FixedChunks<'a> {
 impl Read for FixedChunks<'_> {
     fn read(&mut self, buf: &mut [u8]) -> std::io::Result<usize> {
         self.calls += 1;
-        if self.intr > 0 && self.calls % self.intr == 0 {
+        // intr == 1: only the very first call is interrupted
+        if (self.intr == 1 && self.calls == 1) || (self.intr > 1 && self.calls % self.intr == 0) {
             return Err(std::io::Error::new(std::io::ErrorKind::Interrupted, "interrupted"));
         }
         let k = buf.len().min(self.size).min(self.data.len() - self.pos);
@@ -248,7 +249,7 @@ impl Read for FixedChunks<'_> {
     }
 }
 
-const CHUNK_SIZES: &[(usize, usize)] = &[(1, 0), (2, 0), (3, 0), (4, 0), (5, 0), (7, 0), (8, 0), (64, 0), (4096, 0), (8192, 0), (usize::MAX, 0), (1, 2), (3, 3), (usize::MAX, 7)];
+const CHUNK_SIZES: &[(usize, usize)] = &[(1, 0), (2, 0), (3, 0), (4, 0), (5, 0), (6, 0), (7, 0), (8, 0), (9, 0), (10, 0), (11, 0), (12, 0), (13, 0), (14, 0), (15, 0), (16, 0), (17, 0), (31, 0), (32, 0), (33, 0), (63, 0), (64, 0), (65, 0), (100, 0), (255, 0), (256, 0), (257, 0), (1000, 0), (4095, 0), (4096, 0), (4097, 0), (8191, 0), (8192, 0), (8193, 0), (usize::MAX, 0), (1, 2), (3, 3), (6, 5), (usize::MAX, 7), (usize::MAX, 1)];
 
 /// one size witness: stability in both formats, and the Zinc text through readers of fixed chunk sizes
 fn size_witness_case(i: usize, tier: Tier) -> Verdict {
@@ -498,6 +499,76 @@ fn lazy_case(doc: &str, bounds: &[usize]) -> Verdict {
     }
 }
 
+/// Every way of driving the lazy iterator gives the rows of `parse_grid`: next, nth(k), skip(k),
+/// step_by(k), last, count, size_hint bounds, take_while … (an overridden adaptor method must agree
+/// with the default one built on `next`).
+fn iterator_api_case(doc: &str) -> Verdict {
+    let rows_of = |g: &libhaystack::val::Grid| -> Vec<String> { g.rows.iter().map(|r| format!("{:?}", from_lib(&Value::Dict(r.clone())))).collect() };
+    let want: Vec<String> = {
+        let mut c = std::io::Cursor::new(doc.as_bytes());
+        match Parser::make(&mut c).map_err(|e| e.to_string()).and_then(|mut p| parse_grid(&mut p).map_err(|e| e.to_string())) {
+            Ok(g) => rows_of(&g),
+            Err(_) => return Ok(()),
+        }
+    };
+    let n = want.len();
+    let show = |r: Option<Result<libhaystack::val::Dict, std::io::Error>>| -> Option<String> { r.map(|x| x.map(|d| format!("{:?}", from_lib(&Value::Dict(d)))).unwrap_or_else(|e| format!("Err({e})"))) };
+    macro_rules! with_iter {
+        ($it:ident, $body:expr) => {{
+            let mut c = std::io::Cursor::new(doc.as_bytes());
+            let mut p = Parser::make(&mut c).map_err(|e| ("iterator-api-decode-error".to_string(), e.to_string()))?;
+            #[allow(unused_mut)]
+            let mut $it = parse_grid_iterator(&mut p).map_err(|e| ("iterator-api-decode-error".to_string(), e.to_string()))?;
+            $body
+        }};
+    }
+    let r = guarded(|| -> Verdict {
+        for k in 0..=n + 1 {
+            // nth(k), then the row after it
+            let (a, b) = with_iter!(it, (show(it.nth(k)), show(it.next())));
+            if a != want.get(k).cloned() || b != want.get(k + 1).cloned() {
+                return Err(("iterator-api:nth".into(), format!("nth({k}) then next() give {a:?}, {b:?}; rows are {want:?}")));
+            }
+            let a: Vec<Option<String>> = with_iter!(it, it.skip(k).map(|x| show(Some(x))).collect());
+            if a.iter().flatten().cloned().collect::<Vec<_>>() != want[k.min(n)..].to_vec() {
+                return Err(("iterator-api:skip".into(), format!("skip({k}) gives {a:?}; rows are {want:?}")));
+            }
+            if k >= 1 {
+                let a: Vec<String> = with_iter!(it, it.step_by(k).filter_map(|x| show(Some(x))).collect());
+                let w: Vec<String> = want.iter().step_by(k).cloned().collect();
+                if a != w {
+                    return Err(("iterator-api:step_by".into(), format!("step_by({k}) gives {a:?}, expected {w:?}")));
+                }
+            }
+            let a: Vec<String> = with_iter!(it, it.take(k).filter_map(|x| show(Some(x))).collect());
+            if a != want[..k.min(n)].to_vec() {
+                return Err(("iterator-api:take".into(), format!("take({k}) gives {a:?}")));
+            }
+        }
+        let a = with_iter!(it, show(it.last()));
+        if a != want.last().cloned() {
+            return Err(("iterator-api:last".into(), format!("last() gives {a:?}")));
+        }
+        let a = with_iter!(it, it.count());
+        if a != n {
+            return Err(("iterator-api:count".into(), format!("count() gives {a}, the grid has {n} rows")));
+        }
+        let (lo, hi) = with_iter!(it, it.size_hint());
+        if lo > n || hi.map_or(false, |h| h < n) {
+            return Err(("iterator-api:size_hint".into(), format!("size_hint() = ({lo}, {hi:?}) for {n} rows")));
+        }
+        let a: Vec<String> = with_iter!(it, it.by_ref().filter_map(|x| show(Some(x))).collect());
+        if a != want {
+            return Err(("iterator-api:next".into(), format!("next() rows {a:?}, parse_grid rows {want:?}")));
+        }
+        Ok(())
+    });
+    match r {
+        Err(p) => Err(("iterator-api-panic".into(), p)),
+        Ok(v) => v,
+    }
+}
+
 // ------------------------------------------------------------------------------ run
 
 fn mutant_texts(tier: Tier) -> Vec<String> {
@@ -522,7 +593,7 @@ fn mutant_texts(tier: Tier) -> Vec<String> {
 
 pub fn run(tier: Tier) -> i32 {
     let mut run = Run::new("C11", tier, "model_checking");
-    run.rule = "(a) stability: every spelling with <= 1 (thorough 2) deviations of the scalar alphabet and of a container sample (reference writer), the corpus files shipped with the repository, a timestamp in every zone of the database (bare and inside a grid / list / dict), every accepted single-byte mutant of the small documents, for Zinc and Hayson: decode, re-encode, decode again (same value incl. grid ver), re-encode (identical text). (b) chunking (E2): every script of a reader that at each read() delivers all / one byte / half / Interrupted, with <= 2 deviations, for parse_value and for parse_grid_iterator vs parse_grid. (a'/b') every size witness (strings, widths, nesting at and around 2^6..2^16): stable in both formats, and its Zinc text through readers delivering at most 1,2,3,4,5,7,8,64,4096,8192 bytes per call or Interrupted every 2nd/3rd/7th call decodes (whole value and lazy rows) as from a buffer. (c) laziness: a counting reader under parse_grid_iterator for grids of 1-3 columns x 1-40 rows (LF and CRLF, nested grids, empty cells): bytes consumed when row i is yielded <= end of the first token after row i + 12. states = documents, transitions = reader scripts executed; non-trivial = distinct accepted text".into();
+    run.rule = "(a) stability: every spelling with <= 1 (thorough 2) deviations of the scalar alphabet and of a container sample (reference writer), the corpus files shipped with the repository, a timestamp in every zone of the database (bare and inside a grid / list / dict), every accepted single-byte mutant of the small documents, for Zinc and Hayson: decode, re-encode, decode again (same value incl. grid ver), re-encode (identical text). (b) chunking (E2): every script of a reader that at each read() delivers all / one byte / half / Interrupted, with <= 2 deviations, for parse_value and for parse_grid_iterator vs parse_grid. (a'/b') every size witness (strings, widths, nesting at and around 2^6..2^16): stable in both formats, and its Zinc text through readers delivering at most 1..17, 31..33, 63..65, 100, 255..257, 1000, 4095..4097, 8191..8193 bytes per call, or Interrupted on the first / every 2nd / 3rd / 5th / 7th call decodes (whole value and lazy rows) as from a buffer. (b'') the iterator API of the lazy row iterator (nth, skip, step_by, take, last, count, size_hint, next) on the laziness documents and on grids with nested grid / list / dict cells gives the rows of parse_grid. (c) laziness: a counting reader under parse_grid_iterator for grids of 1-3 columns x 1-40 rows (LF and CRLF, nested grids, empty cells): bytes consumed when row i is yielded <= end of the first token after row i + 12. states = documents, transitions = reader scripts executed; non-trivial = distinct accepted text".into();
     run.assume("12 bytes = the lexer's maximal lookahead (1 scanner byte + up to 10 peeked bytes for number/date detection + CR LF)");
     run.assume("Interrupted reads are retried by the decoder (std::io::Read::read_exact semantics)");
     crate::engine::quiet_panics();
@@ -645,6 +716,27 @@ pub fn run(tier: Tier) -> i32 {
             }
         }
     }
+    // the iterator API on every laziness document and on grids with nested grid / list / dict cells
+    let mut api_docs: Vec<String> = lazy.iter().step_by(tier.pick(7, 1)).map(|d| d.0.clone()).collect();
+    for nrows in 0..=6usize {
+        for cell in ["<<\nver:\"3.0\"\nx,y\n1,2\n3,4\n>>", "[1,\n2]", "{a:1 b:<<\nver:\"3.0\"\nz\n1\n>>}", "\"s\"", ""] {
+            let mut d = String::from("ver:\"3.0\"\na,b\n");
+            for r in 0..nrows {
+                d.push_str(&format!("{r},{}\n", if r % 2 == 0 { cell } else { "N" }));
+            }
+            api_docs.push(d.clone());
+            api_docs.push(d.replace('\n', "\r\n"));
+        }
+    }
+    let l = par_for(api_docs.len(), |i, local| {
+        local.eval();
+        local.transitions += 1;
+        local.count("iterator-api-docs");
+        if let Err((sig, d)) = iterator_api_case(&api_docs[i]) {
+            local.fail(&sig, json!({"iterator_api_doc": api_docs[i]}), d.chars().take(700).collect());
+        }
+    });
+    run.absorb(l);
     let l = par_for(lazy.len(), |i, local| {
         local.eval();
         local.states += 1;
@@ -668,6 +760,9 @@ pub fn run(tier: Tier) -> i32 {
 }
 
 pub fn replay(case: &J) -> Verdict {
+    if let Some(doc) = case["iterator_api_doc"].as_str() {
+        return iterator_api_case(doc);
+    }
     if let Some(doc) = case["lazy_doc"].as_str() {
         let b: Vec<usize> = case["bounds"].as_array().unwrap().iter().map(|x| x.as_u64().unwrap() as usize).collect();
         return lazy_case(doc, &b);
